@@ -1,6 +1,6 @@
 (** C06 — Indicator signals fire exactly under their documented conditions. *)
 From Yata Require Import Base.Prelude Base.Num Base.NumR Core.Window Core.Candle Core.Action
-  Spec.Hist Methods.Basic Methods.Select Indicators.Common Indicators.Set1 Proofs.Detectors Proofs.SignalProofs.
+  Spec.Hist Methods.Basic Methods.Select Indicators.Common Indicators.Set1 Indicators.Set3 Proofs.Detectors Proofs.SignalProofs Proofs.SignalProofs2.
 Open Scope Z_scope.
 
 Section C06.
@@ -24,6 +24,39 @@ Theorem C06_macd_signals (s0 : macd_st (N := NumR)) cs k :
      cross_def (hget (f0, f0) (rev (map (fun q => (fst q, f0)) ps ++ [(fst p, f0)])))].
 Proof. exact (macd_signals_correct s0 cs k). Qed.
 End C06.
+
+(** signals that are a function of the values returned at the same step: the documented rule holds in EVERY state
+    (hence after every stream), on every carrier including binary64 *)
+Section C06b.
+Context {pw : PW} {N : Num}.
+Theorem C06_donchian (s : donch_st) (k : candle) :
+  let r := snd (donch_next s k) in
+  sigs r = [a_from_i8 (b2z (fge (c_high k) (vals r 2)) - b2z (fle (c_low k) (vals r 0)))].
+Proof. exact (donchian_signal s k). Qed.
+Theorem C06_price_channel (s : pch_st) (k : candle) :
+  let r := snd (pch_next s k) in
+  sigs r = [a_from_i8 (b2z (fge (c_high k) (vals r 0)) - b2z (fle (c_low k) (vals r 1)))].
+Proof. exact (price_channel_signal s k). Qed.
+Theorem C06_envelopes (s : env_st) (k : candle) :
+  let r := snd (env_next s k) in
+  sigs r = [a_from_i8 (b2z (flt (vals r 2) (vals r 1)) - b2z (fgt (vals r 2) (vals r 0)))].
+Proof. exact (envelopes_signal s k). Qed.
+Theorem C06_momentum_index (s : momi_st) (k : candle) :
+  let r := snd (momi_next s k) in
+  sigs r = [a_from_i8 (b2z (fgt (vals r 0) f0 && fgt (vals r 1) f0) - b2z (flt (vals r 0) f0 && flt (vals r 1) f0))].
+Proof. exact (momentum_index_signal s k). Qed.
+Theorem C06_bollinger (s : boll_st) (k : candle) :
+  let r := snd (boll_next s k) in
+  let src := c_source k (bc_source (bo_cfg s)) in let range := fsub (vals r 0) (vals r 2) in
+  let rel := if feq range f0 then flit 1 2 else fdiv (fsub src (vals r 2)) range in
+  sigs r = [a_from_f (ffma rel f2 (fneg f1))].
+Proof. exact (bollinger_signal s k). Qed.
+Theorem C06_parabolic_sar (s : psar_st) (k : candle) :
+  let s' := fst (psar_next s k) in
+  sigs (snd (psar_next s k)) = [a_from_i8 (b2z (negb (ps_prev_trend s =? ps_trend s')) * ps_trend s')] /\
+  ps_prev_trend s' = ps_trend s' /\ vals (snd (psar_next s k)) 1 = fofZ (ps_trend s').
+Proof. exact (psar_signal s k). Qed.
+End C06b.
 
 (** Known finding KF-C06-keltner-polarity: the documentation of KeltnerChannel says "when the source goes
     above the upper bound, returns full buy"; on the faithful model (binary64, kernel computation)
